@@ -589,3 +589,10 @@ func (p *PState) IntFact(v ssa.Value) (int64, bool) {
 	}
 	return 0, false
 }
+
+// AssumeNil: follow the path on which the (error) value is nil.
+func (p *PState) AssumeNil(v ssa.Value) {
+	f := p.facts[v]
+	f.nilK = 1
+	p.facts[v] = f
+}
